@@ -37,6 +37,7 @@ theorem dict_rt_partial (e : BEnv) (Γ : Ctx) (fac : Factory) (cfg : ParserConfi
     ∃ j, encode Γ fac {} n v = .ok j ∧ j.native = true ∧ decode e Γ cfg n (.cls c) j = ND.pure v :=
   dict_rt e Γ fac cfg n c v h
 
+example : ctxOKj okwCtx = true := by rfl
 example : valOKj benv0 okwCtx .dict 3 "Doc".toList okw_value = true := by rfl
 example : valOKj benv0 okwCtx .filterNone 3 "Doc".toList okw_value = true := by rfl
 /-- a field of a base class with a loaded subclass is inside the fragment when the keys decide -/
